@@ -93,6 +93,12 @@ def cases(tier, seed):
                         c["history"] = ["act"] + list(hist)
                         c["save_at"] = len(c["history"])
                     out.append(c)
+    # population-level checkpoints through the helper of the training loops (algorithms without the known carriers)
+    for algo in ("CQN", "RainbowDQN", "TD3", "NeuralUCB", "MATD3"):
+        for overwrite in (False, True):
+            for steps_move in ((True, False) if tier == "quick" else (True, False, True, False)):
+                out.append({"kind": "population", "algo": algo, "obs": "vector", "overwrite": overwrite, "steps_move": steps_move,
+                            "seed": int(rng.integers(1 << 30))})
     return out
 
 
@@ -119,11 +125,64 @@ def _carrier(case, path: str) -> str:
     return "network_or_attribute"
 
 
+def _run_population(case, rec):
+    """save_population_checkpoint (the helper every training loop uses): after each call, the file documented for member i
+    (`<path>_<i>.pt` with overwrite, `<path>_<i>_<steps>.pt` without) holds member i AS IT IS NOW."""
+    import contextlib
+    import io
+
+    from agilerl.utils.utils import save_population_checkpoint
+
+    from vf import agentops, walk, zoo
+
+    algo = case["algo"]
+    kw = {"share_encoders": False} if algo in zoo.HAS_SHARE_ENCODERS else {}
+    agentops.seed_all(case["seed"])
+    pop = [zoo.make_agent(algo, case["obs"], index=i, hp_config=zoo.tiny_hp_config(algo), **kw) for i in range(2)]
+    tmpdir = tempfile.mkdtemp(prefix="vf_c07p_")
+    base = os.path.join(tmpdir, "pop")
+    try:
+        for rnd in range(3):
+            for j, ag in enumerate(pop):
+                agentops.seed_all(case["seed"] + 10 * rnd + j)
+                zoo.learn(ag, batch_seed=case["seed"] % 997 + 10 * rnd + j)
+                if case["steps_move"] or rnd == 0:
+                    ag.steps[-1] += 5  # steps_move=False: a second save at an unchanged step count
+            with contextlib.redirect_stdout(io.StringIO()):
+                save_population_checkpoint(pop, base, overwrite_checkpoints=bool(case["overwrite"]))
+            rec.hit("population_saves")
+            for i, ag in enumerate(pop):
+                path = f"{base}_{i}.pt" if case["overwrite"] else f"{base}_{i}_{ag.steps[-1]}.pt"
+                rec.hit("population_file_checks")
+                if not os.path.exists(path):
+                    rec.violate("population_checkpoint", "documented_file_missing", "save_population_checkpoint", algo=algo, member=i,
+                                overwrite=case["overwrite"], round=rnd)
+                    continue
+                restored = type(ag).load(path)
+                diffs = [d for d in walk.diff(walk.agent_leaves(ag), walk.agent_leaves(restored), ignore=IGNORE) if not _is_checkpoint_metadata(d)]
+                if diffs:
+                    rec.violate("population_checkpoint", "file_does_not_hold_the_member_as_saved_now", "save_population_checkpoint", algo=algo,
+                                member=i, overwrite=case["overwrite"], round=rnd, steps_moved=case["steps_move"], path=diffs[0]["path"],
+                                n_diffs=len(diffs))
+        rec.nontrivial = True
+    finally:
+        shutil.rmtree(tmpdir, ignore_errors=True)
+
+
 def run_case(case):
     from vf import agentops, walk, zoo
     from vf.props import c01
 
     rec = Recorder()
+    if case.get("kind") == "population":
+        try:
+            _run_population(case, rec)
+        except CaseTimeout:
+            raise
+        except Exception as e:
+            rec.crash(e, "population_checkpoint", "save_population_checkpoint workload", algo=case["algo"])
+            rec.nontrivial = True
+        return rec.result()
     algo = case["algo"]
     tmpdir = None
     try:
